@@ -1097,6 +1097,11 @@ class Interp:
         hook = getattr(v, 'abs_item', None)
         if hook is not None:
             return hook(self, i, n)
+        hook = getattr(i, 'abs_index_into', None)
+        if hook is not None:
+            r = hook(self, v, n)
+            if r is not None:
+                return r
         if isinstance(v, Inst):
             if v.native is not None and isinstance(v.native, BA) and isinstance(i, K):
                 return v.native.bit(i.v)
@@ -1634,7 +1639,7 @@ class Interp:
             if isinstance(order, K) and order.v in ('little', 'big'):
                 r = crc32c_fast(bytes(args[0].v))
                 return K(r if order.v == 'little' else r[::-1])
-        if q in ('crypto.crc.crc32c', 'crypto.crc.crc16') and args and not (isinstance(args[0], K)):
+        if q in ('crypto.crc.crc32c', 'crypto.crc.crc16') and args and not (isinstance(args[0], K)) and not getattr(self, 'NO_CRC_SUMMARY', False):
             if q.endswith('crc16'):
                 return Term('crc', K('crc16'), args[0], K(2))
             order = args[1] if len(args) > 1 else kw.get('byteorder')
